@@ -50,9 +50,20 @@ def _worker_init():
   _quiet()
 
 
-def pytype_pyi(src, skip_repeat_calls=True):
-  """(pyi text, None) or (None, reason)"""
+def pytype_pyi(src, skip_repeat_calls=True, empty_to_any=False):
+  """(pyi text, None) or (None, reason).  The two switches are root-cause probes used to fingerprint a violation:
+  skip_repeat_calls=False turns pytype's call cache off; empty_to_any=True replaces a call result that is the
+  empty value (`nothing`, e.g. sum([])) by Any."""
   from pytype import config, io  # pylint: disable=import-outside-toplevel
+  from pytype.abstract import function  # pylint: disable=import-outside-toplevel
+  orig = function.call_function
+  if empty_to_any:
+    def patched(ctx, node, func_var, args, *a, **k):
+      node2, ret = orig(ctx, node, func_var, args, *a, **k)
+      if not ret.bindings or any(type(d).__name__ == "Empty" for d in ret.data):
+        ret = ctx.new_unsolvable(node2)
+      return node2, ret
+    function.call_function = patched
   try:
     opts = config.Options.create(python_version=(3, 12))
     if not skip_repeat_calls:
@@ -61,6 +72,8 @@ def pytype_pyi(src, skip_repeat_calls=True):
     return text, None
   except Exception as e:  # pylint: disable=broad-except
     return None, type(e).__name__ + ": " + str(e)[:200]
+  finally:
+    function.call_function = orig
 
 
 def _pyi_task(src):
@@ -262,9 +275,44 @@ def l0_part(res, pool, r, n_gen, corpus):
 # ---------------------------------------------------------------------------------------
 # (b) e2e oracle
 
-def classify(src, calls, v0, pool):
-  """A stable fingerprint for an e2e violation: by root-cause probes first, by the constructs of the minimised
-  program otherwise.  Returns (fingerprint, minimised source)."""
+def dedupe_dict_keys(src):
+  """drops the earlier entries of equal constant keys in dict displays (run-time semantics unchanged apart from
+  the evaluation of the dropped value expressions); None if there is nothing to drop"""
+  tree = ast.parse(src)
+  changed = [False]
+
+  class D(ast.NodeTransformer):
+    def visit_Dict(self, node):
+      self.generic_visit(node)
+      seen, keep = set(), []
+      for k, v in reversed(list(zip(node.keys, node.values))):
+        try:
+          key = ("c", ast.literal_eval(k)) if k is not None else None
+          hash(key)
+        except Exception:  # pylint: disable=broad-except
+          key = None
+        if key is not None and key in seen:
+          changed[0] = True
+          continue
+        if key is not None:
+          seen.add(key)
+        keep.append((k, v))
+      keep.reverse()
+      node.keys = [k for k, _ in keep]
+      node.values = [v for _, v in keep]
+      return node
+
+  t2 = D().visit(tree)
+  if not changed[0]:
+    return None
+  return ast.unparse(ast.fix_missing_locations(t2)) + "\n"
+
+
+def classify(src, calls, v0, known):
+  """A fingerprint for a violation: root-cause probes on the ORIGINAL program first (semantic, stable), the
+  constructs of the minimised program otherwise.  Returns (fingerprint, minimised source or None).
+  Everything is bounded by numbers of pytype runs, not by wall-clock time, so the result does not depend on the
+  machine load."""
 
   def still(s, **kw):
     g, _ = E2E.run_cpython(s)
@@ -277,25 +325,37 @@ def classify(src, calls, v0, pool):
       r = E2E.check_program(s, calls, pyi)
     except Exception:  # pylint: disable=broad-except
       return False
-    return bool(r and any(v["kind"] == v0["kind"] for v in r[1]))
+    return bool(r and any(v["kind"] == v0["kind"] and v["where"] == v0["where"] for v in r[1]))
 
   if not still(src):
-    return "not-reproducible", src
-  # probe 1: the call cache (InterpreterFunction._call_cache); off => every call is re-analysed
+    return "not-reproducible", None
+  fp = None
+  # probe 1: the call cache (InterpreterFunction._call_cache) off => every call is re-analysed
   if not still(src, skip_repeat_calls=False):
-    return "call-cache:cached-return-invisible-in-other-branch", E2E.minimise(src, still, 15.0)
-  m = E2E.minimise(src, still, 12.0)
-  m = E2E.simplify_exprs(m, still, 8.0)
-  m = E2E.minimise(m, still, 4.0)
-  feats = E2E.features(m)
-  # probe 2: a builtin call whose replacement by its run-time value cures the violation
-  for f in feats:
-    if f.startswith("builtin:") or f.startswith("builtin-method:"):
-      nm = f.split(":", 1)[1]
-      cured = _cures_builtin(m, nm, still)
-      if cured:
-        return "builtin-result:" + nm, m
-  return v0["kind"] + ":" + "+".join(feats), m
+    fp = "call-cache:cached-return-invisible-in-other-branch"
+  # probe 2: call results that are the empty value `nothing` (sum([]), ...) replaced by Any
+  elif not still(src, empty_to_any=True):
+    fp = "empty-value:call-result-nothing-treated-as-no-value"
+  else:
+    # probe 3: equal constant keys in one dict display
+    d = dedupe_dict_keys(src)
+    if d is not None and E2E.run_cpython(d)[0] is not None and not still(d):
+      fp = "dict-display:duplicate-constant-key"
+  if fp is not None and (fp in known or fp in _classified):
+    return fp, None                      # already reported / listed: no need to minimise again
+  b = E2E.Budget(60, 240.0)
+  m = E2E.minimise(src, still, b)
+  m = E2E.simplify_exprs(m, still, E2E.Budget(40, 160.0))
+  m = E2E.minimise(m, still, E2E.Budget(20, 80.0))
+  if fp is None:
+    feats = E2E.features(m)
+    for f in feats:
+      if f.startswith("builtin:") or f.startswith("builtin-method:"):
+        nm = f.split(":", 1)[1]
+        if _cures_builtin(m, nm, still):
+          return "builtin-result:" + nm, m
+    fp = v0["kind"] + ":" + "+".join(feats)
+  return fp, m
 
 
 def _cures_builtin(src, name, still):
@@ -338,29 +398,34 @@ def _cures_builtin(src, name, still):
 _classified = {}
 
 
+MAX_UNCLASSIFIED = 10
+
+
 def report_violation(res, origin, src, calls, v0, pool):
-  """minimise + fingerprint + res.violation (capped)"""
-  if len(res.violations) >= 3 and len(_classified) >= 12:
+  """fingerprint (+ minimise the first of its kind) + res.violation; at most 3 unlisted violations are reported"""
+  n_new = sum(1 for v in res.violations if v["found_input"])
+  if n_new >= 3:
+    _classified["(not classified: 3 unlisted violations already reported)"] = \
+        _classified.get("(not classified: 3 unlisted violations already reported)", 0) + 1
     return
   t0 = time.time()
-  fp, m = classify(src, calls, v0, pool)
+  fp, m = classify(src, calls, v0, res.known)
   if fp == "not-reproducible":
     return
-  key = fp
-  _classified[key] = _classified.get(key, 0) + 1
-  if _classified[key] > 1 and (fp in res.known or any(v["fingerprint"] == fp for v in res.violations)):
+  first = fp not in _classified
+  _classified[fp] = _classified.get(fp, 0) + 1
+  if not first:
     return
-  if len(res.violations) >= 3 and fp not in res.known:
-    return
+  m = m or src
   pyi, _ = pytype_pyi(m)
   try:
-    vv = E2E.check_program(m, calls, pyi)[1]
+    vv = [v for v in E2E.check_program(m, calls, pyi)[1] if v["kind"] == v0["kind"]]
   except Exception:  # pylint: disable=broad-except
     vv = [v0]
   res.violation(fp, "run-time value outside its inferred type (%s %s: %s does not admit %s)" %
                 (v0["kind"], v0["where"], v0["type"], v0["value"][:80]),
                 {"kind": origin, "src": m, "calls": calls, "original_src": src, "violation": (vv or [v0])[0],
-                 "pyi": pyi, "minimise_s": round(time.time() - t0, 1)})
+                 "pyi": pyi, "classify_s": round(time.time() - t0, 1)})
 
 
 def e2e_part(res, pool, r, n_gen, corpus):
